@@ -168,7 +168,11 @@ func VsymC15() {
 	defer fskit.Cleanup()
 	nOps := vr.Param("ops", 3)
 	capacity := vr.Param("cap", 6)
-	urls := []string{vr.Str("url", capacity), vr.Str("url", capacity)}
+	nURLs := vr.Param("urls", 2)
+	urls := []string{vr.Str("url", capacity)}
+	if nURLs > 1 {
+		urls = append(urls, vr.Str("url", capacity))
+	}
 	cache, err := NewFileCache(root)
 	vr.Assert(err == nil && cache != nil, "the cache directory can be created")
 	ctx := context.Background()
@@ -187,7 +191,7 @@ func VsymC15() {
 	}
 	for op := 0; op < nOps; op++ {
 		kind := vr.Choice("op", 3)
-		u := urls[vr.Choice("whichURL", 2)]
+		u := urls[vr.Choice("whichURL", len(urls))]
 		switch kind {
 		case 0: // store
 			b := &corecrl.Bundle{}
@@ -345,7 +349,7 @@ func c15Native(cache *FileCache, root string, urls []string, nOps int) {
 	}
 	for op := 0; op < nOps; op++ {
 		kind := vr.Choice("op", 3)
-		u := urls[vr.Choice("whichURL", 2)]
+		u := urls[vr.Choice("whichURL", len(urls))]
 		switch kind {
 		case 0:
 			b := &corecrl.Bundle{}
